@@ -5,7 +5,7 @@ import z3
 
 from .. import common, meprogs, templates
 from ..driver import HOLDS, INCONCLUSIVE, UNDECIDED, VIOLATION
-from ..prog import Env, IllTyped, add_abstract_leaf, build, cols_of, fmt, from_jsonable, to_jsonable
+from ..prog import Env, IllTyped, add_abstract_leaf, build, cols_of, expression_history, fmt, from_jsonable, to_jsonable
 from ..symx import Skip, explore, zint
 from . import c14
 
@@ -28,6 +28,10 @@ def ill_edits(cols, engine_kind):
         other = "sq" if engine_kind == "it" else "it"
         E.append(("calc unsupported (nested in a supported restricted function)", ("EngineError",),
                   lambda ch, o: ("calc", ch, "e", ("rneg", ("rneg", A, other), "both"), None)))
+        E.append(("calc unsupported (nested in an unrestricted function)", ("EngineError",),
+                  lambda ch, o: ("calc", ch, "e", ("add", ("rneg", A, other), ("lit", "$k9")), None)))
+        E.append(("calc engine-specific function of the other engine (nested)", ("EngineError",),
+                  lambda ch, o: ("calc", ch, "e", ("neg", ("efn", A, other)), None)))
         E.append(("sort term unsupported (nested)", ("EngineError",),
                   lambda ch, o: ("sort", ch, ((("rneg", ("add", A, ("rneg", A, other)), "both"), True),), None)))
         E.append(("selection unsupported (nested under NOT / comparison)", ("EngineError",),
@@ -35,6 +39,7 @@ def ill_edits(cols, engine_kind):
         E.append(("selection unsupported by engine", ("EngineError",), lambda ch, o: ("sel", ch, ("rgt", A, ("lit", "$k9"), "sq" if engine_kind == "it" else "it"), None)))
     E.append(("selection only missing column", ("ColumnError",), lambda ch, o: ("sel", ch, ("gt", Zc, ("lit", "$k9")), o)))
     E.append(("projection of missing column", ("ColumnError",), lambda ch, o: ("proj", ch, ("a", "z") if "a" in cols else ("z",), o)))
+    E.append(("projection onto all columns plus a missing one", ("ColumnError",), lambda ch, o: ("proj", ch, tuple(sorted(cols)) + ("z",), o)))
     E.append(("sort only missing column", ("ColumnError",), lambda ch, o: ("sort", ch, ((Zc, True),), o)))
     return E
 
@@ -150,6 +155,7 @@ def _chain_of(rel):
 
 def attempt(item, env, slice_args=None):
     """Build the base, then issue the ill-formed call.  -> (outcome, problem)"""
+    expression_history(env, item["base"], item.get("node"))
     try:
         base = build(item["base"], env)
     except Exception as e:  # noqa: BLE001 - prefix not constructible: nothing to test
